@@ -173,6 +173,12 @@ expressions, `fold(empty_lagrange, |acc, e| acc * trash_challenge + e)`, on ALL 
 def trashValues (n : Nat) (challenge : F) (exprs : List (List F)) : List F :=
   exprs.foldl (fun acc e => addInto (acc.map (· * challenge)) e) (List.replicate n 0)
 
+/-- `lookup/prover.rs: commit_permuted: compress_expressions`: value vector of the compressed
+input (or table) expressions, `fold(empty_lagrange, |acc, e| acc * theta + e)` — the same fold as
+in `trash/prover.rs: commit`, with `theta` in place of the trash challenge. -/
+def compressExpressions (n : Nat) (theta : F) (exprs : List (List F)) : List F :=
+  trashValues n theta exprs
+
 /-- The compressed expression the verifier computes from the evaluations
 (`fold(ZERO, |acc, eval| acc * trash_challenge + eval)`), on row `i`. -/
 def compressRow (challenge : F) (exprs : List (List F)) (i : Nat) : F :=
